@@ -461,6 +461,7 @@ func (s *synGen) manyTerms() *Grammar {
 	// two-token alternatives with the late terminals, so that they matter as look-aheads too
 	item.Alts = append(item.Alts, alt(Sym{STok, fmt.Sprintf("k%d", n-1)}, Sym{STok, fmt.Sprintf("k%d", n-2)}))
 	sep := Sym{SStr, ";"}
+	s.terms = []Sym{{STok, "k0"}, {STok, "k1"}, {STok, fmt.Sprintf("k%d", n-1)}, sep} // for the generic post-processing
 	return &Grammar{NTs: []*NTDef{
 		{Head: "S", Alts: []SAlt{alt(nt("Item")), alt(nt("S"), sep, nt("Item"))}},
 		item,
